@@ -74,9 +74,12 @@ pub fn gen_text(rng: &mut Rng, cfg: &TextCfg) -> Vec<Unit> {
     let mut out: Vec<Unit> = Vec::with_capacity(cfg.len);
     while out.len() < cfg.len {
         if cfg.runs && rng.chance(1, 6) {
-            // an ASCII run whose length straddles the stride sizes
-            let n = rng.pick(&[1usize, 7, 15, 16, 17, 31, 32, 33, 47, 63, 64, 65, 100]);
-            let c = rng.pick(&['a', 'b', ' ', '0']);
+            // a run of one repeated character whose length straddles the stride
+            // sizes: mostly ASCII, sometimes a non-ASCII character (8- and
+            // 16-unit vectors full of the same non-ASCII unit, right after an
+            // ASCII run of any length)
+            let n = rng.pick(&[1usize, 7, 8, 9, 15, 16, 17, 24, 31, 32, 33, 47, 63, 64, 65, 100]);
+            let c = if rng.chance(2, 3) { rng.pick(&['a', 'b', ' ', '0']) } else { scalar_from(rng.pick(CLASS_ALPHABET)) };
             for _ in 0..n.min(cfg.len - out.len()) {
                 out.push(Unit::Scalar(c));
             }
@@ -164,13 +167,23 @@ pub fn tiny() -> bool {
 
 pub fn draw_text_cfg(rng: &mut Rng, long: bool, utf16: bool) -> TextCfg {
     let long = long && !tiny();
-    let len = if long { rng.range(40, 700) } else if tiny() { rng.range(0, 8) } else { rng.range(0, 24) };
+    // a middle class of texts (24..96 characters) that also contain stride-sized runs
+    let medium = !long && !tiny() && rng.chance(1, 8);
+    let len = if long {
+        rng.range(40, 700)
+    } else if medium {
+        rng.range(24, 96)
+    } else if tiny() {
+        rng.range(0, 8)
+    } else {
+        rng.range(0, 24)
+    };
     TextCfg {
         len,
         sweep_base: if rng.chance(1, 3) { Some((rng.below(0x110000 / 48) * 48) as u32) } else { None },
         ascii_pct: rng.pick(&[0u32, 20, 40, 60, 85]),
         lone_surrogates: utf16 && rng.chance(1, 2),
-        runs: long,
+        runs: long || medium,
     }
 }
 
